@@ -38,7 +38,8 @@ using namespace QtLogger;
 namespace {
 
 const char *const kTemplates[] = { "plain.log", "t_%{time yyyy}.log", "t_%{time}.log", "sub_%{time yyyy-MM}_x.log", "noext",
-                                   "two_%{time yyyy}_%{time MM}.log", "odd_%{timeyyyy}.log" };
+                                   "two_%{time yyyy}_%{time MM}.log", "odd_%{timeyyyy}.log",
+                                   "missing_dir/cannot_open.log" };   // the last one cannot be opened: the sinks' error paths
 const int kTemplateCount = int(sizeof kTemplates / sizeof kTemplates[0]);
 const char *const kPatterns[] = { "[%{message:*^7}]|%{type}", "%{if-warning}W%{endif}%{category} %{message:>6}", "%{shortfile}:%{line} %{function}" };
 const int kPatternCount = int(sizeof kPatterns / sizeof kPatterns[0]);
